@@ -232,3 +232,13 @@ def c_canon(c):
 def c_canon_saam(c):
     """SAAM at the canonical poses: NaN at every exactly level pose is the recorded known finding KF-C03-SAAM-level"""
     _canon_body(c, {'SAAM': lambda ah, a, m: ah.filters.SAAM().estimate(a, m)})
+
+
+@contract('C03', 'AQUA.estimate.safe', optional=True, thorough_only=True, feas_timeout_ms=1500, budget_s=1500, max_paths=200, timeout_ms=30000,
+          functions=['AQUA.estimate'])
+def c_aqua_safe(c):
+    """AQUA's algebraic fix (acc + mag): with the safety clause ON -- each of its two-branch formulas is only evaluated on
+    the side where its denominator cannot vanish, so every division and square root is safe for all non-parallel samples"""
+    _, a, m = _sensors(c, True)
+    out = c.ahrs.filters.AQUA().estimate(a, m)
+    _unit(c, out)
